@@ -108,7 +108,7 @@ def _run_one(sc, workdir, env):
     if outp.exists():
         outp.unlink()
     t0 = time.time()
-    limit = 60 + 4 * float(sc.get("bound", BOUND)) + 30 * len(sc["requests"])
+    limit = 150 + 6 * float(sc.get("bound", BOUND)) + 60 * len(sc["requests"])
     try:
         p = subprocess.Popen(["/venv/bin/python", "-m", "harness.c18_driver", str(scp), str(outp)], env=env,
                              cwd=str(core.VERIF), stdout=subprocess.PIPE, stderr=subprocess.PIPE, text=True,
